@@ -41,6 +41,8 @@ pub fn documents(tier: Tier) -> Vec<A> {
     out.push(A::doc(vec![A::el(X, "a").decl("p", X).child(A::el(Y, "b").decl("p", Y).attr(Y, "k", "1").child(A::el(Y, "c")))]));
     out.push(A::doc(vec![A::el("u&v", "a").decl("p", "u&v").attr("u&v", "k", "1")]));
     out.push(A::doc(vec![A::el(X, "a").decl("p", X).decl("q", X).attr(X, "k", "1").child(A::el(X, "b").attr("", "l", "x"))]));
+    // synonymous prefixes inherited by a child that uses one of them for an attribute
+    out.push(A::doc(vec![A::el("", "a").decl("p", X).decl("q", X).child(A::el(X, "b").attr(X, "k", "1").child(A::el("", "c").attr(X, "m", "2")))]));
     // 4. xml:id and xml:space
     out.push(A::doc(vec![A::el("", "a").attr(XML_NS, "id", "i").child(A::el("", "b").attr(XML_NS, "id", "j k").attr(XML_NS, "space", "preserve"))]));
     out.push(A::doc(vec![A::el("", "a").attr("", "id", " x  y ").attr(XML_NS, "id", "a b")]));
